@@ -16,4 +16,9 @@ ProbeNoDead       == \A r \in RM : rmState[r].type /= "dead"
 ProbeNoAcceptLater == \A r \in RM : ~(rmState[r].type = "blockAccepted" /\ rmState[r].view > 0)
 ProbeNoMaxView     == \A r \in RM : Honest(r) => rmState[r].view < MaxView
 ProbeNoCommitAck   == \A m \in msgs : m.type /= "CommitAck"
+
+\* focus constraints (harness C20): prune behaviours in which somebody commits before view 1 / view 2,
+\* so that random simulation spends its budget on decisions taken after one or two view changes
+FocusLateViews1 == \A r \in RM : rmState[r].type \in {"commitSent", "commitAckSent", "blockAccepted"} => rmState[r].view >= 1
+FocusLateViews2 == \A r \in RM : rmState[r].type \in {"commitSent", "commitAckSent", "blockAccepted"} => rmState[r].view >= 2
 =============================================================================
